@@ -563,12 +563,12 @@ def section_crashes(ctx):
             ref = c15.parse_log(c15.flat(c15.reference(cfg)))   # the independent reference schedule (oracle)
             points = [(K, "exception") for K in list(range(1, len(fidx) + 1)) + [None]]
             # aborts that are BaseException but not Exception (sys.exit / Ctrl-C inside a hook): every point in the
-            # thorough tier; in quick every point of the first shape and every second point of the others, alternating kinds
+            # thorough tier; in quick every point of the first shape and every third point of the others, alternating kinds
             for K in range(1, len(fidx) + 1):
                 if ctx.thorough:
                     points += [(K, "SystemExit"), (K, "KeyboardInterrupt")]
-                elif shape == shapes[0] or (K + pos) % 2 == 0:
-                    points.append((K, ABORT_KINDS[1 + (K + pos) % 2]))
+                elif shape == shapes[0] or (K + pos) % 3 == 0:
+                    points.append((K, ABORT_KINDS[1 + (K // 3 + K + pos) % 2]))
             for K, kind in points:
                 summ, calls, crashed, extra = real_crash(shape, pos, K, kind)
                 case = {"shape": list(shape), "fault_position": pos, "fail_at_call": K, "abort_kind": kind,
